@@ -118,6 +118,27 @@ def address_corpus(tier, seed, model, cross=True):
         d = ".".join([ch * rep] * nlab) + ".com"
         out.add(b"user@" + d.encode("utf-8"))
         out.add(b"user@" + d.encode("utf-8") + b".")
+    # two long-ish halves at once: local-part length x domain length grid (limits that depend on the *sum* or on both)
+    def _dom(n):
+        labs, left = [], n - 3
+        while left > 0:
+            k = min(63, left)
+            labs.append(b"d" * k)
+            left -= k + 1
+        d = b".".join(labs) + b".cc"
+        return d if len(d) == n else None
+    for ln in (1, 2, 3, 4, 31, 32, 33, 62, 63, 64, 65):
+        for dn in (60, 63, 64, 65, 66, 127, 128, 129, 187, 188, 189, 190, 191, 192, 193, 194, 250, 251, 252, 253, 254):
+            d = _dom(dn)
+            if d:
+                out.add(b"a" * ln + b"@" + d)
+                out.add((b"a." * ln)[:ln - 1] + b"b@" + d if ln > 1 else b"a@" + d)
+    # number of words in the local part (atoms, quoted words, alternating), number of labels in the domain
+    for k in list(range(1, 34)) + [40, 64]:
+        out.add(b".".join([b"a"] * k)[:64] + b"@a.bc")
+        out.add(b".".join([b'"q"', b"a"] * k)[:63].rstrip(b'."') + b"@a.bc")
+        out.add(b".".join([b'""'] * k)[:64].rstrip(b".") + b"@a.bc")
+        out.add(b"u@" + b".".join([b"l%d" % i for i in range(k)]) + b".com")
     # local parts around the 2^8 / 2^15 / 2^16 boundaries (length counters of every width), valid and invalid shapes
     for n in (255, 256, 257, 32767, 32768, 65535, 65536, 65537, 65536 + 40, 65536 + 64, 65536 + 65, 131072 + 3):
         for l in (b"a" * n, (b"ab." * n)[:n - 1] + b"c", b'"' + b"a" * (n - 2) + b'"'):
